@@ -156,6 +156,20 @@ func gen(g *common.Gen) {
 					g.Stat("ins-nested")
 				}
 			}
+			// signed form: models with a signature field (Interest, Data, T1, T2) — the plain Encode() never
+			// writes the SignatureValue, so append it as the signing path does and insert the unknown element
+			// at every top-level boundary of THAT encoding (incl. after the signature)
+			if st := m.sigTyp(); st != 0 {
+				nItems := len(m.Items(v)) + 1
+				for k := 0; k <= nItems; k++ {
+					t, ic := common.Pick(r, noncrit), r.Intn(2)
+					if r.Chance(1, 4) {
+						t, ic = common.Pick(r, crit), r.Intn(2)
+					}
+					g.Op("sigins %d %s %s %d %s", ic, txt, common.Hex(r.Bytes(r.Range(0, 40))), k, common.Hex(TLV(t, r.Bytes(r.Range(1, 4)))))
+					g.Stat("sigins")
+				}
+			}
 			// structural mutations: model-vs-code comparison on reordered / duplicated / dropped / truncated elements
 			for j := 0; j < 3; j++ {
 				how := common.Pick(r, []string{"swap", "dup", "drop", "trunc", "move"})
@@ -214,6 +228,21 @@ func mutate(b []byte, how string, a, c int) ([]byte, bool) {
 		return append([]byte{}, b[:n]...), true
 	}
 	return bytes.Join(parts, nil), true
+}
+
+// sigTyp returns the type number of the model's signature field when it is the LAST typed field
+// (so that appending the SignatureValue TLV to the plain encoding is the signed encoding), else 0.
+func (m *Model) sigTyp() uint64 {
+	last := -1
+	for i := range m.Fields {
+		if m.Fields[i].K.Tag != "marker" {
+			last = i
+		}
+	}
+	if last >= 0 && m.Fields[last].K.Tag == "signature" {
+		return m.Fields[last].Typ
+	}
+	return 0
 }
 
 func regen(dir string) string {
@@ -316,6 +345,19 @@ func execOp(op string) string {
 		v := m.Build(ParseText(f[2]))
 		b := m.Encode(m.NewEncoder(v), v).Join()
 		nb, ok := m.InsertAt(b, parseSel(f[3]), common.Atoi(f[4]), common.UnHex(f[5]))
+		if !ok {
+			return "skip"
+		}
+		return common.Hex(nb) + " " + parseOut(m, enc.NewBufferReader(nb), f[1] == "1")
+	case "sigins":
+		st := m.sigTyp()
+		if st == 0 {
+			return "skip"
+		}
+		v := m.Build(ParseText(f[2]))
+		b := m.Encode(m.NewEncoder(v), v).Join()
+		b = append(b, TLV(st, common.UnHex(f[3]))...)
+		nb, ok := m.InsertAt(b, nil, common.Atoi(f[4]), common.UnHex(f[5]))
 		if !ok {
 			return "skip"
 		}
